@@ -363,6 +363,13 @@ def check_A(case, ctx):
     if case['kind'] == 'omkm':
         q, a = case['units'].split('/')
         eff = eff * c.convert_unit(initial='mol', final=q) / c.convert_unit(initial='cm2', final=a)
+    if case['kind'] == 'omkm':
+        # a Units object says the same as the unit string (documented alternative form of the argument)
+        from pmutt.omkm.units import Units
+        q_, a_ = case['units'].split('/')
+        for U_ in (Units(length=a_[:-1], quantity=q_), Units(length=a_[:-1], quantity=q_, time='min', mass='g')):
+            ctx.close('C09.A/Units-object=string', math.log(r1.get_A(**dict(kw, units=U_))), math.log(A1), rtol=1e-13,
+                      atol=1e-12, detail='units=%s n_surf=%r' % (case['units'], nsurf))
     if not case['with_ts']:
         ctx.close('C09.A/no-TS-value', math.log(A1), math.log(kBh) - (nsurf - 1) * math.log(eff), rtol=1e-12,
                   atol=1e-10, detail='n_surf=%r op=%s' % (nsurf, op))
